@@ -3951,7 +3951,11 @@ def add_measures(part):
         while pos < ts_end:
             measure_start = pos
             measure_end_beats = min(beat_map(pos) + measure_dur, beat_map(end))
-            measure_end = min(ts_end, inv_beat_map(measure_end_beats))
+            # inv_beat_map interpolates in floating point (719.9999999999999 for
+            # 720): take the nearest division instead of truncating it with int()
+            # below, and at least one division so that the loop always advances
+            measure_end = int(np.round(inv_beat_map(measure_end_beats)))
+            measure_end = min(ts_end, max(measure_end, pos + 1))
             # any existing measures between measure_start and measure_end
             existing_measure = next(
                 part.iter_all(Measure, measure_start, measure_end), None
